@@ -1,0 +1,48 @@
+//go:build verif
+
+// Machine-checked contracts for package environment (comment-only; read by /verif/bin/bornovc).
+package environment
+
+// Every scope has a table; parents are set at construction only.
+//@ cellinv H_environment_Environment_Values m: m != nil
+
+//@ func NewEnvironment [C03]
+//@ ensures [fresh] fresh(result) && envParent(result) == 0 && envTable(result) != 0
+//@ ensures [empty] forall(k, Str, !envHere(result, k))
+//@ ensures [frame] forall(r, Int, objDom(r) == old(objDom(r)) || !old(mapAllocated(r))) && forall(r, Int, objVals(r) == old(objVals(r)) || !old(mapAllocated(r)))
+//@ ensures [tables] !old(mapAllocated(now(envTable(result))))
+
+//@ func NewEnvironmentWithParent [C03,C04]
+//@ ensures [fresh] fresh(result) && envParent(result) == parent && envTable(result) != 0
+//@ ensures [empty] forall(k, Str, !envHere(result, k))
+//@ ensures [frame] forall(r, Int, objDom(r) == old(objDom(r)) || !old(mapAllocated(r))) && forall(r, Int, objVals(r) == old(objVals(r)) || !old(mapAllocated(r)))
+//@ ensures [tables] !old(mapAllocated(now(envTable(result))))
+//@ ensures [others] forall(r, Int, r != result ==> envTable(r) == old(envTable(r)) && envParent(r) == old(envParent(r)))
+
+//@ func (e *Environment) Define [C03]
+//@ inline
+//@ requires [nonnil] e != nil
+//@ requires [canon] canon(value)
+
+//@ func (e *Environment) Get [C03]
+//@ requires [nonnil] e != nil
+//@ ensures [bound] (result1 == nil) == envBound(e, name)
+//@ ensures [value] result1 == nil ==> result0 == envLookup(e, name)
+//@ ensures [canon] result1 == nil ==> canon(result0)
+//@ ensures [err] result1 == nil || isErr(result1)
+
+//@ func (e *Environment) GetInCurrentScope [C03]
+//@ requires [nonnil] e != nil
+//@ ensures [here] (result1 == nil) == envHere(e, name)
+//@ ensures [value] result1 == nil ==> result0 == objGet(envTable(e), name)
+
+//@ func (e *Environment) Assign [C03,C06]
+//@ requires [nonnil] e != nil
+//@ requires [canon] canon(value)
+//@ ensures [hit] old(envBound(e, name.Lexeme)) ==> objVals(envTable(old(envOwner(e, name.Lexeme)))) == store(old(objVals(envTable(envOwner(e, name.Lexeme)))), name.Lexeme, value)
+//@ ensures [hitframe] forall(r, Int, r != old(envTable(envOwner(e, name.Lexeme))) ==> objVals(r) == old(objVals(r)))
+//@ ensures [domframe] forall(r, Int, objDom(r) == old(objDom(r)))
+//@ ensures [miss] !old(envBound(e, name.Lexeme)) ==> forall(r, Int, objVals(r) == old(objVals(r)))
+//@ ensures [diag] !old(envBound(e, name.Lexeme)) ==> stderrN == old(stderrN)+1 && diagLine(stderr[old(stderrN)]) == name.Line
+//@ ensures [quiet] old(envBound(e, name.Lexeme)) ==> stderrN == old(stderrN)
+//@ ensures [flag] utils.HadRuntimeError == (old(utils.HadRuntimeError) || !old(envBound(e, name.Lexeme)))
